@@ -109,3 +109,173 @@ func outerAfterEarlyGrant(w *world, rng interface {
 	rec.Count("outer.reader_after_early_grant_kept_until_next_writers_grace", 1)
 	return true
 }
+
+// errHookCtx is a caller's context whose Err method does something before it answers - here: the context
+// ends at the very moment somebody asks. Any use of ctx.Err() inside an acquisition therefore finds the
+// context over "just now", which is how a context that ends between two statements looks.
+type errHookCtx struct {
+	context.Context
+	hook func()
+}
+
+func (c *errHookCtx) Err() error {
+	if c.hook != nil {
+		c.hook()
+	}
+	return c.Context.Err()
+}
+
+// outerCtxEndsAtGrant: "an acquisition that reported an error holds nothing". A reader's context ends right
+// when the lock looks at it - on a free lock, or when the reader's turn comes after a writer unlocked.
+// Whatever RLock then answers is fine, but it must be consistent: an error means no hold is left behind (a
+// writer that arrives next is granted without waiting for anybody), no error means a real hold.
+func outerCtxEndsAtGrant(w *world, rng interface {
+	Intn(int) int
+	Range(int, int) int
+}) bool {
+	grace := []time.Duration{time.Second, 5 * time.Second, 30 * time.Second}[rng.Intn(3)]
+	behindWriter := w.idx%2 == 1
+	if w.idx%3 == 2 {
+		return ctxLockCtxEndsWhenAsked(w, behindWriter, w.idx%2 == 0)
+	}
+	w.step(fmt.Sprintf("ctx-ends-when-asked grace=%v behindWriter=%v", grace, behindWriter))
+	o := lock.NewOuterCancel(errOuter, grace)
+	runCtx, stop := context.WithCancel(context.Background())
+	runDone := make(chan struct{})
+	go func() { o.Run(runCtx); close(runDone) }()
+	defer func() { stop(); <-runDone }()
+	synctest.Wait()
+	var unlockW1 context.CancelFunc
+	if behindWriter {
+		unlockW1 = o.Lock()
+	}
+	inner, cancelInner := context.WithCancel(context.Background())
+	defer cancelInner()
+	asked := 0
+	ctx := &errHookCtx{Context: inner, hook: func() { asked++; cancelInner() }}
+	type res struct {
+		rctx context.Context
+		rel  context.CancelFunc
+		err  error
+	}
+	got := make(chan res, 1)
+	go func() {
+		rctx, rel, err := o.RLock(ctx)
+		got <- res{rctx, rel, err}
+	}()
+	synctest.Wait()
+	if behindWriter {
+		unlockW1()
+		synctest.Wait()
+	}
+	var r res
+	select {
+	case r = <-got:
+	default:
+		w.violation("OuterCancel/ctx-ends-when-asked/rlock-did-not-return", "RLock on a lock nobody holds did not return")
+		return true
+	}
+	if asked > 0 {
+		rec.Count("outer.observed.lock_asked_the_callers_context_for_its_error", 1)
+	}
+	arrived := time.Now()
+	granted := make(chan context.CancelFunc, 1)
+	if r.err != nil {
+		// reported an error: it holds nothing
+		go func() { granted <- o.Lock() }()
+		synctest.Wait()
+		select {
+		case u := <-granted:
+			u()
+		default:
+			w.violation("OuterCancel/rlock-error-leaves-a-hold", fmt.Sprintf("RLock returned %v (its context ended when the lock asked it); a writer that arrived next, with nobody else around, is not granted at once: the failed acquisition left a read hold behind (the writer will have to sit out the grace period %v)", r.err, grace))
+			return true
+		}
+		rec.Count("outer.rlock_error_when_ctx_ends_at_grant_holds_nothing", 1)
+		return true
+	}
+	// no error: a real hold; the writer has to wait for the release
+	go func() { granted <- o.Lock() }()
+	synctest.Wait()
+	select {
+	case <-granted:
+		w.violation("OuterCancel/two-holders", "RLock returned a hold without error, yet a writer was granted while it is held")
+		return true
+	default:
+	}
+	r.rel()
+	synctest.Wait()
+	select {
+	case u := <-granted:
+		if !time.Now().Equal(arrived) {
+			w.violation("OuterCancel/writer-not-granted-after-release", "the writer was granted only after time passed although the reader released at once")
+		}
+		u()
+	default:
+		w.violation("OuterCancel/writer-not-granted-after-release", "the reader released, the writer is still not granted")
+		return true
+	}
+	rec.Count("outer.rlock_granted_with_probing_context", 1)
+	return true
+}
+
+// ctxLockCtxEndsWhenAsked: the same for lock.Context's Lock / RLock.
+func ctxLockCtxEndsWhenAsked(w *world, behindWriter, write bool) bool {
+	w.step(fmt.Sprintf("lock.Context ctx-ends-when-asked behindWriter=%v write=%v", behindWriter, write))
+	l := lock.NewContext()
+	if behindWriter {
+		if err := l.Lock(context.Background()); err != nil {
+			w.violation("lock.Context/error-without-cause", err.Error())
+			return true
+		}
+	}
+	inner, cancelInner := context.WithCancel(context.Background())
+	defer cancelInner()
+	ctx := &errHookCtx{Context: inner, hook: cancelInner}
+	got := make(chan error, 1)
+	go func() {
+		if write {
+			got <- l.Lock(ctx)
+		} else {
+			got <- l.RLock(ctx)
+		}
+	}()
+	synctest.Wait()
+	if behindWriter {
+		l.Unlock()
+		synctest.Wait()
+	}
+	var err error
+	select {
+	case err = <-got:
+	default:
+		w.violation("lock.Context/ctx-ends-when-asked/did-not-return", "an acquisition on a lock nobody holds did not return")
+		return true
+	}
+	if err == nil {
+		// a real hold: give it back
+		if write {
+			l.Unlock()
+		} else {
+			l.RUnlock()
+		}
+		rec.Count("context.granted_with_probing_context", 1)
+	} else {
+		rec.Count("context.error_with_probing_context", 1)
+	}
+	// either way the lock is free now: an exclusive acquisition goes through at once
+	done := make(chan error, 1)
+	go func() { done <- l.Lock(context.Background()) }()
+	synctest.Wait()
+	select {
+	case e := <-done:
+		if e != nil {
+			w.violation("lock.Context/error-without-cause", e.Error())
+			return true
+		}
+		l.Unlock()
+	default:
+		w.violation("lock.Context/error-leaves-a-hold", fmt.Sprintf("an acquisition whose context ended when the lock asked it returned %v; afterwards an exclusive Lock on the otherwise unused lock does not go through", err))
+	}
+	return true
+}
